@@ -216,7 +216,11 @@ impl<T: SampleX> Interp<T> {
                         }
                         self.inbuf[c] = v;
                     } else {
+                        // a masked channel's input is ignored: empty, or (every third time) a short placeholder
                         self.inbuf[c].clear();
+                        if (i + c) % 3 == 1 {
+                            self.inbuf[c].push(T::of64(0.5));
+                        }
                     }
                 }
                 let pred = self.model.as_ref().map(|m| m.predict());
@@ -481,7 +485,9 @@ impl<T: SampleX> Interp<T> {
             for c in 0..ch {
                 let v = &mut self.outbuf[c];
                 v.clear();
-                v.resize(out_len, sent);
+                // a masked channel's output buffer is ignored: full length, or (every third time) a one-frame placeholder
+                let len = if !active(c) && (i + c) % 3 == 2 { out_len.min(1) } else { out_len };
+                v.resize(len, sent);
             }
         }
         let mref = mv.as_deref();
@@ -575,6 +581,12 @@ impl<T: SampleX> Interp<T> {
 }
 
 pub fn exec_history<T: SampleX>(cfg: &Config, sig: &Signal, ops: &[Op], opts: &HistOpts) -> Trace<T> {
+    exec_history_with(cfg, sig, ops, opts, false)
+}
+
+/// `via_vec`: the instance is driven through `Box<dyn VecResampler>` (plain constructor, dispatch kernel); reset and
+/// set_chunk_size are not part of that trait and are left out of the history
+pub fn exec_history_with<T: SampleX>(cfg: &Config, sig: &Signal, ops: &[Op], opts: &HistOpts, via_vec: bool) -> Trace<T> {
     let mut tr = Trace {
         built_err: None,
         initial: None,
@@ -591,7 +603,8 @@ pub fn exec_history<T: SampleX>(cfg: &Config, sig: &Signal, ops: &[Op], opts: &H
         total_in: 0,
         total_out: 0,
     };
-    let mut it = match Interp::<T>::new(cfg, opts) {
+    let built = if via_vec { crate::cfg::build_vec::<T>(cfg).map(|b| Interp::from_res(cfg, opts, Box::new(crate::dynres::ViaVec(b)))) } else { Interp::<T>::new(cfg, opts) };
+    let mut it = match built {
         Ok(i) => i,
         Err(e) => {
             tr.built_err = Some(e);
@@ -600,6 +613,9 @@ pub fn exec_history<T: SampleX>(cfg: &Config, sig: &Signal, ops: &[Op], opts: &H
     };
     tr.initial = Some(it.res.getters());
     for (i, op) in ops.iter().enumerate() {
+        if via_vec && matches!(op, Op::Reset | Op::SetChunk { .. } | Op::SetChunkRaw { .. }) {
+            continue;
+        }
         let r = it.step(i, op, sig, &mut tr);
         if tr.stuck {
             break;
